@@ -869,8 +869,8 @@ main(int argc, char** argv)
     }
   for (const Seed& s : seeds)
     {
-      const int nrandom = thorough ? 6000 : (s.t == T_KEYPARSER ? 500 : 450);
-      const int nbytes = thorough ? 400 : 40;
+      const int nrandom = thorough ? 6000 : (s.t == T_KEYPARSER ? 400 : 350);
+      const int nbytes = thorough ? 400 : 30;
       for (const std::string& text : inputs_for_seed(s, rng, nrandom, nbytes))
         work.push_back({ s.t, s.name, text });
     }
